@@ -123,6 +123,8 @@ class ExprMixin:
     def hashable_key(self, k):
         if isinstance(k, (str, int, bool, bytes, type(None), tuple, Ref, ExtClassRef)):
             return k
+        if isinstance(k, Opaque) and k.kind == 'tag':
+            return ('$opaque', k.label)
         if isinstance(k, FStr) and all(isinstance(p, str) for p in k.parts):
             return ''.join(k.parts)
         if isinstance(k, FStr):
